@@ -16,6 +16,12 @@
 //
 // Entry points exercised per (case, document), for json and ojson: search(doc, expr, ec), search(doc, expr)
 // (throwing), make_expression(expr, ec).evaluate(doc, ec), make_expression(expr).evaluate(doc) (throwing).
+// Numbers: documents and predictions carry ["int", n] or ["dec", m, e] (the decimal m * 10^e, exact).  A document number
+// ["dec", m, e] is built as the double nearest to the decimal (jc::build_doc; ["dec",10,-1] is the double 1.0, ["int",1] the
+// integer 1).  Results are compared BY VALUE, never by C++ storage kind (JSON has one number type): a returned integer or a
+// returned double with an integral value is ["int", n]; any other returned double must be bit-for-bit the double nearest
+// to the predicted decimal (strtod of "<m>e<e>", correctly rounded) - no tolerance.  A predicted decimal with an integral
+// value is the same number as the integer.  The document-unchanged check is strict (storage kind included).
 // Observables compared: value (objects as maps, numbers by numeric value) or "an error was reported";
 // agreement of the four entry points; the document after the calls equals the document before.
 // No oracle logic here beyond equality with the prediction.
@@ -31,6 +37,19 @@ static long nchecks = 0, nnontrivial = 0, ndontcare = 0;
 
 // library value -> canonical wire (members sorted by key).  JSON has one number type: a double with an
 // integral value is the integer.  Anything outside the model universe becomes ["other", ...] (never equal).
+// a non-integral finite double: its bits, and its shortest round-trip text for the reports
+static mj::Value num_wire(double d) { mj::Value r = jc::dbl_wire(d); char b[40]; snprintf(b, sizeof b, "%.17g", d); r.push(b); return r; }
+// predicted value -> the same canonical form (by value: a decimal with an integral value is the integer)
+static mj::Value canon_expected(const mj::Value& w) {
+    const std::string& k = w[0].str();
+    if (k == "arr") { mj::Value r = mj::Value::array(); r.push("arr"); mj::Value a = mj::Value::array(); for (auto& e : w[1].a) a.push(canon_expected(e)); r.push(a); return r; }
+    if (k == "obj") { mj::Value r = mj::Value::array(); r.push("obj"); mj::Value a = mj::Value::array(); for (auto& kv : w[1].a) { mj::Value p = mj::Value::array(); p.push(kv[0]); p.push(canon_expected(kv[1])); a.push(p); }
+        std::stable_sort(a.a.begin(), a.a.end(), jc::key_less); r.push(a); return r; }
+    if (k == "dec") { double d = jc::dec_value(w);
+        if (std::floor(d) == d && std::fabs(d) < 9e15) { mj::Value r = mj::Value::array(); r.push("int"); r.push((int64_t)d); return r; }
+        return num_wire(d); }
+    return w;
+}
 template <class Json>
 static mj::Value val_wire(const Json& j) {
     mj::Value r = mj::Value::array();
@@ -42,6 +61,7 @@ static mj::Value val_wire(const Json& j) {
         case json_type::float16:
         case json_type::float64: { double d = j.template as<double>();
             if (std::isfinite(d) && std::floor(d) == d && std::fabs(d) < 9e15) { r.push("int"); r.push((int64_t)d); }
+            else if (std::isfinite(d)) return num_wire(d);
             else { char b[40]; snprintf(b, sizeof b, "%.17g", d); r.push("other"); r.push("double"); r.push(b); } break; }
         case json_type::string: if (j.tag() == semantic_tag::none || j.tag() == semantic_tag::noesc) { r.push("str"); r.push(jc::cps_of(j.template as<std::string>())); } else { r.push("other"); r.push("tagged-string"); r.push(j.template as<std::string>()); } break;
         case json_type::array: { r.push("arr"); mj::Value a = mj::Value::array(); for (auto& e : j.array_range()) a.push(val_wire(e)); r.push(a); break; }
@@ -83,7 +103,7 @@ static int satisfies(const Obs& o, const mj::Value& p, bool se) {
     const std::string& k = p[0].str();
     if (k == "dc") return -1;
     if (k == "e") return o.ok ? 0 : 1;
-    if (k == "v") { if (!o.ok) return se ? 1 : 0; return o.v == jc::canon_doc(p[1]) ? 1 : 0; }
+    if (k == "v") { if (!o.ok) return se ? 1 : 0; return o.v == canon_expected(p[1]) ? 1 : 0; }
     return -1;
 }
 
